@@ -32,23 +32,36 @@ Proof. destruct (sstate_eqb_spec st st); congruence. Qed.
 
 Lemma loc_okb_next cfg s sc t l p sl : handler cfg s sc t = HNext l p sl -> loc_okb l = true.
 Proof.
-  intros H. pose proof (handler_within_table_lemma cfg s sc t) as Hw. rewrite H in Hw.
-  destruct Hw as [e [He Ha]]. destruct l as [st ev]. cbn [fst snd] in *. subst ev.
-  assert (E : existsb (fun from => match allowed from e with Some st' => sstate_eqb st' st | None => false end) all_sstates = true).
-  { apply existsb_exists. exists (fst (loc t)). split; [apply all_sstates_complete|]. rewrite Ha. apply sstate_eqb_refl. }
-  destruct st; exact E.
+  intros H. pose proof (handler_within_table_weak cfg s sc t) as Hw. rewrite H in Hw.
+  destruct Hw as [e [He [Ha|[_ [_ [He2 Hb]]]]]]; destruct l as [st ev]; cbn [fst snd] in *; subst ev.
+  - assert (E : existsb (fun from => match allowed from e with Some st' => sstate_eqb st' st | None => false end) all_sstates = true).
+    { apply existsb_exists. exists (fst (loc t)). split; [apply all_sstates_complete|]. rewrite Ha. apply sstate_eqb_refl. }
+    destruct st; exact E.
+  - (* Broken(FromHasMissingDependencies) is constructible from CheckingSuperficialDiffs in every table *)
+    subst st e. reflexivity.
 Qed.
 
 Lemma can_die_false cfg sc :
   thread_can_die cfg sc = false ->
   s_proc sc <> CannotStart /\
-  (has_dep_records sc = true -> s_thor sc <> VError /\ (fixed_P14 cfg = true \/ s_sup sc <> VError)).
+  (has_dep_records sc = true -> (fixed_P14b cfg = true \/ s_thor sc <> VError) /\ (fixed_P14 cfg = true \/ s_sup sc <> VError)).
 Proof.
   unfold thread_can_die. intros H. apply orb_false_iff in H. destruct H as [H1 H2]. split.
   - intros E. rewrite E in H1. discriminate.
   - intros Hr. rewrite Hr in H2. cbn [andb] in H2. apply orb_false_iff in H2. destruct H2 as [H2 H3]. split.
-    + intros E. rewrite E in H2. discriminate.
+    + destruct (fixed_P14b cfg); auto. right. intros E. rewrite E in H2. discriminate.
     + destruct (fixed_P14 cfg); auto. right. intros E. rewrite E in H3. discriminate.
+Qed.
+
+(* with the repairs of P14 and P14b a step thread can die only when popen fails *)
+Lemma thread_error_fixed cfg :
+  fixed_P14 cfg = true -> fixed_P14b cfg = true -> all_can_start cfg = true -> Known_thread_error cfg = false.
+Proof.
+  intros H14 H14b Hst. unfold Known_thread_error. destruct (existsb (thread_can_die cfg) (c_steps cfg)) eqn:E; auto. exfalso.
+  apply existsb_exists in E. destruct E as [sc [Hin E]]. unfold thread_can_die in E. rewrite H14, H14b in E.
+  cbn [negb andb orb] in E. rewrite andb_false_r, orb_false_r in E.
+  unfold all_can_start in Hst. rewrite forallb_forall in Hst. specialize (Hst _ Hin).
+  destruct (s_proc sc); discriminate.
 Qed.
 
 Lemma handler_no_die cfg s sc t panic p sl :
@@ -61,7 +74,7 @@ Proof.
   destruct (loc t) as [st ev] eqn:Hl; destruct st; destruct ev as [[]|]; cbn [fst snd] in H;
     try discriminate Hlok;
     repeat break_match_hyp; try discriminate H; try (apply Hcs; assumption); try (exfalso; apply Hcs; reflexivity).
-  all: try (match goal with Hn : negb (has_dep_records _) = false |- _ => apply negb_false_iff in Hn; destruct (Hrec Hn) as [Ht [Hs|Hs]]; congruence end).
+  all: try (match goal with Hn : negb (has_dep_records _) = false |- _ => apply negb_false_iff in Hn; destruct (Hrec Hn) as [[Ht|Ht] [Hs|Hs]]; congruence end).
   all: try (specialize (Hw eq_refl); cbn in Hw; discriminate Hw).
 Qed.
 
@@ -879,3 +892,60 @@ Proof.
   destruct (status t) eqn:Hst; try discriminate. destruct (chan t); try discriminate.
   split; auto. apply (ti_fin (inv_thr HI _ _ Ht) Hst).
 Qed.
+
+(* ---------------------------------------------------------------------------------------- *)
+(* run-level forms used by Props/C11.v                                                      *)
+(* ---------------------------------------------------------------------------------------- *)
+Lemma progress_decreases_run cfg sch s x s' :
+  Live cfg -> run cfg sch = Accepted s -> step_ex cfg s x = Some (s', true) -> measure cfg s' < measure cfg s.
+Proof.
+  intros HL Hrun. exact (progress_decreases_lemma cfg s x s' HL (Inv_run cfg sch s Hrun) (LInv_run cfg sch s HL Hrun)).
+Qed.
+
+Lemma fair_termination_init cfg s0 K n sch :
+  Live cfg -> init cfg = Accepted s0 -> measure cfg s0 <= N.of_nat n ->
+  fair K (all_tids cfg) sch -> (K * (n + 1) <= length sch)%nat ->
+  all_doneb (run_sched cfg s0 sch) = true.
+Proof.
+  intros HL Hinit. exact (fair_termination_lemma cfg s0 K HL Hinit n s0 sch (Inv_init cfg s0 Hinit) (LInv_init cfg s0 HL Hinit)).
+Qed.
+
+Lemma threads_end_only_with_verdict_lemma cfg sch s i sc t :
+  Live cfg -> run cfg sch = Accepted s -> find_step (c_steps cfg) i = Some sc -> tget (thr s) i = Some t ->
+  status t = TRun \/ (status t = TFin /\ is_terminal (loc t) = true).
+Proof.
+  intros HL Hrun Hf Ht. destruct (li_status (l_thr (LInv_run cfg sch s HL Hrun) i sc t Hf Ht)) as [E|E]; [left; exact E|right].
+  split; [exact E|]. exact (ti_fin (inv_thr (Inv_run cfg sch s Hrun) i t Ht) E).
+Qed.
+
+Lemma all_done_verdicts_run cfg sch s i t :
+  run cfg sch = Accepted s -> all_doneb s = true -> tget (thr s) i = Some t ->
+  is_terminal (loc t) = true /\ chan t = [].
+Proof. intros Hrun. exact (all_done_verdicts_lemma cfg s i t (Inv_run cfg sch s Hrun)). Qed.
+
+(* the hypotheses of the repaired tree: every repair is in, popen succeeds *)
+Lemma live_fixed cfg :
+  fix_shared_pool cfg = true -> fix_atomic_acquire cfg = true -> fixed_P12 cfg = true ->
+  fixed_P13 cfg = true \/ Known_big_stderr cfg = false ->
+  fixed_P14 cfg = true -> fixed_P14b cfg = true -> all_can_start cfg = true ->
+  0 < c_pool cfg -> 0 < c_cap cfg -> Live cfg.
+Proof.
+  intros H1 H2 H3 H4 H5 H6 H7 H8 H9.
+  exact (Build_Live cfg H1 H2 H3 H4 (thread_error_fixed cfg H5 H6 H7) H8 H9).
+Qed.
+
+Definition all_repaired (cfg : config) : bool :=
+  fix_shared_pool cfg && fix_atomic_acquire cfg && fixed_P12 cfg && fixed_P13 cfg && fixed_P14 cfg && fixed_P14b cfg.
+
+Lemma live_all_repaired cfg :
+  all_repaired cfg = true -> all_can_start cfg = true -> 0 < c_pool cfg -> 0 < c_cap cfg -> Live cfg.
+Proof.
+  unfold all_repaired. intros H Hs Hp Hc.
+  repeat (apply andb_true_iff in H; let H' := fresh "Hx" in destruct H as [H H']).
+  apply live_fixed; auto.
+Qed.
+
+Lemma C11_full_fixed_lemma cfg sch s :
+  all_repaired cfg = true -> all_can_start cfg = true -> 0 < c_pool cfg -> 0 < c_cap cfg ->
+  run cfg sch = Accepted s -> stuckb cfg s = false.
+Proof. intros H Hs Hp Hc. apply not_stuck_lemma. apply live_all_repaired; auto. Qed.
